@@ -185,6 +185,7 @@ def run(ctx):
     # code -> spec: long sessions on real decoders validated step by step by TLC (TraceMultipart.tla)
     from .. import mp_trace
     nev = mp_trace.long_sessions(ctx, wd, 60 if ctx.tier == "quick" else 600, rnd, "C01")
+    mp_trace.helper_level(ctx, 40 if ctx.tier == "quick" else 400, rnd)
     nrepo = mp_trace.pytest_sessions(ctx, wd, common.REPO, tlc.VERIF)
     ctx.bounds["long_sessions"] = {"per_boundary": 60 if ctx.tier == "quick" else 600, "boundaries": len(mp_trace.BOUNDARIES), "events": nev,
                                    "repository_test_sessions": nrepo}
